@@ -28,7 +28,26 @@ pub mod thread {
   use std::sync::Arc;
   use std::time::Duration;
 
-  pub use shuttle::thread::{scope, Builder, JoinHandle, Scope, ScopedJoinHandle, ThreadId};
+  pub use shuttle::thread::{scope, Builder, Scope, ScopedJoinHandle, ThreadId};
+
+  /// std's `JoinHandle` surface (shuttle's own handle has no `is_finished`).
+  pub struct JoinHandle<T> {
+    inner: shuttle::thread::JoinHandle<T>,
+    finished: Arc<AtomicBool>,
+  }
+
+  impl<T> JoinHandle<T> {
+    pub fn join(self) -> std::thread::Result<T> {
+      self.inner.join()
+    }
+    pub fn thread(&self) -> &shuttle::thread::Thread {
+      self.inner.thread()
+    }
+    /// A plain read, as in std (callers poll it between sleeps, which are scheduling points).
+    pub fn is_finished(&self) -> bool {
+      self.finished.load(Ordering::SeqCst)
+    }
+  }
 
   shuttle::thread_local! {
     // The harness-owned park token of this simulated thread. (A plain std atomic: only one
@@ -70,7 +89,19 @@ pub mod thread {
     F: FnOnce() -> T + Send + 'static,
     T: Send + 'static,
   {
-    shuttle::thread::spawn(f)
+    let finished = Arc::new(AtomicBool::new(false));
+    let f2 = finished.clone();
+    struct Done(Arc<AtomicBool>);
+    impl Drop for Done {
+      fn drop(&mut self) {
+        self.0.store(true, Ordering::SeqCst);
+      }
+    }
+    let inner = shuttle::thread::spawn(move || {
+      let _done = Done(f2);
+      f()
+    });
+    JoinHandle { inner, finished }
   }
 
   pub fn yield_now() {
